@@ -37,17 +37,22 @@ Inductive update_result (sn : eds_snapshot) (e : eds) (current uptodate : ers) (
          let previous := match es_canary st3 with Some cs => cs_nodes cs | None => [] end in
          ((nb = zlen previous /\ st' = st3) \/
           (nb <> zlen previous /\
-           exists sel, select_nodes (r_tmpl uptodate) (ca_antiaffinity c) nb (canary_candidate_nodes sn c)
-                                    (eds_pods sn e) previous = (sel, true) /\ st' = with_canary_nodes st3 sel))) ->
+           exists sel enough, select_nodes (r_tmpl uptodate) (ca_antiaffinity c) nb (canary_candidate_nodes sn c)
+                                    (eds_pods sn e) previous = (sel, enough) /\ st' = with_canary_nodes st3 sel))) ->
     (active = false ->
        st' = st3 /\ ann' = fst (clear_canary_annots (e_annots e)) /\ ws = (failed || snd (clear_canary_annots (e_annots e)))) ->
     update_result sn e current uptodate sc sr sa st'
                   (if failed then r_tmpl_hash current else e_tmpl_hash e) ann' ws.
 
+(** the plan of [updateInstanceWithCurrentRS] is what [finish_update] writes for that status; when the canary
+    node selection came up short the same writes are planned and the error is reported *)
+Lemma same_writes : forall pl pl0 : eds_plan, pl = pl0 \/ pl = set_error pl0 -> ep_writes pl = ep_writes pl0.
+Proof. intros pl pl0 [->| ->]; reflexivity. Qed.
+
 Theorem update_instance_inv : forall sn e current uptodate sc sr sa pl,
   update_instance sn e current uptodate sc sr sa = Ok pl ->
-  exists st' h ann' ws, update_result sn e current uptodate sc sr sa st' h ann' ws /\
-                        finish_update sn e st' h ann' ws = Ok pl.
+  exists st' h ann' ws pl0, update_result sn e current uptodate sc sr sa st' h ann' ws /\
+                        finish_update sn e st' h ann' ws = Ok pl0 /\ (pl = pl0 \/ pl = set_error pl0).
 Proof.
   intros sn e current uptodate sc sr sa pl H. unfold update_instance in H.
   destruct (st_canary (e_strategy e)) as [c|] eqn:Ec.
@@ -56,22 +61,33 @@ Proof.
     + destruct (ca_replicas c) as [rep|] eqn:Er; [|discriminate].
       destruct (resolve_iop rep (es_desired (e_status e))) as [nb|] eqn:En; [|discriminate].
       match type of H with (if ?b then _ else _) = _ => destruct b eqn:Eq end.
-      * do 4 eexists. split; [|exact H].
+      * do 4 eexists. exists pl. split; [|split; [exact H | left; reflexivity]].
         eapply UR_canary with (c := c); try eassumption; rewrite Epr; cbn [fst snd]; rewrite Eact.
         -- intros _. repeat split; auto. exists rep, nb. repeat split; auto. left. apply Z.eqb_eq in Eq. auto.
         -- discriminate.
-      * destruct (select_nodes _ _ _ _ _ _) as [sel enough] eqn:Es. destruct enough; [|discriminate].
-        do 4 eexists. split; [|exact H].
-        eapply UR_canary with (c := c); try eassumption; rewrite Epr; cbn [fst snd]; rewrite Eact.
-        -- intros _. repeat split; auto. exists rep, nb. repeat split; auto. right. apply Z.eqb_neq in Eq. split; [assumption|].
-           exists sel. split; [exact Es | reflexivity].
-        -- discriminate.
+      * destruct (select_nodes _ _ _ _ _ _) as [sel enough] eqn:Es.
+        assert (Hres : update_result sn e current uptodate sc sr sa
+                         (with_canary_nodes (manage_status (with_eds_conds (base_status e current sc sr sa)
+                            (canary_conditions (es_conds (base_status e current sc sr sa)) (es_now sn)
+                               (canary_failed_rs (r_status uptodate)) paused reason)) (e_annots e) uptodate true
+                               (canary_failed_rs (r_status uptodate)) paused reason) sel)
+                         (if canary_failed_rs (r_status uptodate) then r_tmpl_hash current else e_tmpl_hash e)
+                         (e_annots e) (canary_failed_rs (r_status uptodate))).
+        { eapply UR_canary with (c := c); try eassumption; rewrite Epr; cbn [fst snd]; rewrite Eact.
+          -- intros _. repeat split; auto. exists rep, nb. repeat split; auto. right. apply Z.eqb_neq in Eq. split; [assumption|].
+             exists sel, enough. split; [exact Es | reflexivity].
+          -- discriminate. }
+        destruct enough.
+        -- do 4 eexists. exists pl. split; [exact Hres|]. split; [exact H | left; reflexivity].
+        -- unfold with_error in H.
+           match type of H with match ?f with _ => _ end = _ => destruct f as [pl0|k|k] eqn:Ef end; try discriminate.
+           inversion H; subst pl. do 4 eexists. exists pl0. split; [exact Hres|]. split; [exact Ef | right; reflexivity].
     + destruct (clear_canary_annots (e_annots e)) as [ann' changed] eqn:Ecl.
-      do 4 eexists. split; [|exact H].
+      do 4 eexists. exists pl. split; [|split; [exact H | left; reflexivity]].
       eapply UR_canary with (c := c); try eassumption; rewrite Epr; cbn [fst snd]; rewrite Eact.
       * discriminate.
       * intros _. rewrite Ecl. cbn. auto.
-  - do 4 eexists. split; [|exact H]. apply UR_no_canary. assumption.
+  - do 4 eexists. exists pl. split; [|split; [exact H | left; reflexivity]]. apply UR_no_canary. assumption.
 Qed.
 
 (** ** the whole reconcile *)
@@ -151,7 +167,8 @@ Proof.
   - destruct Hw as [[_ Hw] | [_ [upl [Hui Hw]]]].
     + rewrite Hw, statuses_of_deletes in Hin. contradiction.
     + rewrite Hw, statuses_of_app, statuses_of_deletes in Hin. cbn [app] in Hin.
-      apply update_instance_inv in Hui. destruct Hui as [st'' [h [ann' [ws [Hres Hfin]]]]].
+      apply update_instance_inv in Hui. destruct Hui as [st'' [h [ann' [ws [pl0 [Hres [Hfin Hsame]]]]]]].
+      apply same_writes in Hsame. rewrite Hsame in Hin.
       apply finish_update_writes in Hfin. 
       assert (st' = st'').
       { destruct Hfin as [F|[F|[_ F]]]; rewrite F in Hin; cbn in Hin; intuition. }
